@@ -4,7 +4,7 @@ PROPS = {
     'C05': {
         'engines': [('rl', 400, 20000), ('pub', 300, 5000), ('conn', 150, 3000), ('sub', 100, 2000), ('unsub', 100, 2000),
                     ('ack', 80, 800), ('empty', 1, 1), ('val', 80, 800), ('apipub', 200, 4000), ('apiconn', 100, 2000),
-                    ('inpub', 200, 4000)],
+                    ('inpub', 200, 4000), ('inflow', 150, 1500)],
         'rule': 'boundary tables (every remaining-length threshold ±2, all QoS×retain×dup, all 2^6 CONNECT option '
                 'combinations) then seeded random cases; a case is non-trivial when the implementation produced a '
                 'packet or a classified rejection; distinct = distinct case line',
